@@ -8,11 +8,20 @@ simulated clock (patched sleep/getppid/kill/utime in the monitor module, time/Po
 real lock file in a scratch directory carries the simulated mtimes) through generated fault
 sequences; refresh times, the helper's end (time, cause) and what other clients see are compared
 with the model inside coqc.
+The helper is started the way start_monitor() starts it: the holder works in its own directory with
+a relative or absolute jugdir (lock class, store.getlock, jug.backends.select('file_keepalive:DIR')),
+the Popen call it makes is recorded (command line, cwd, other arguments), the monitor's main() gets
+that argv and its utime() resolves the path against the cwd the call gives the helper; the call and
+the file it addresses are compared with the model (launch_check) and with the lock file on disk.
+fail() is observed at the granularity of its primitives (kill of the helper, os.utime of the failed
+stamp): a wake-up of the helper can be scheduled between the two.
 Search: the same runs are judged by the property's own oracle, independent of Coq."""
 import importlib
 import math
 import os
+import signal
 import sys
+import threading
 import time as _time
 
 from . import core
@@ -21,15 +30,20 @@ from . import jugrun
 from jug.backends import file_store as fs
 from jug.subcommands.cleanup import cleanup as cleanup_cmd
 
+select_mod = importlib.import_module("jug.backends.select")
+
 mon = importlib.import_module('jug.backends.file_keepalive_monitor')
+_os_utime = os.utime          # the harness's own calls (simulated mtimes); os.utime itself is wrapped during a run
 
 EVIDENCE = dict(
     level='proof',
-    rule='case = one fault sequence (lock acquired at t0, helper start-up delay, per-round sleep overruns, holder death / '
-         'release() / fail() / removal of the lock file by somebody else, is_locked()/is_failed() queries, cleanup --failed-only and '
+    rule='case = one fault sequence (holder in its own working directory with a relative / absolute jugdir named through the lock '
+         'class, store.getlock or backends.select; lock acquired at t0, helper started as the recorded Popen call says, start-up '
+         'delay, per-round sleep overruns, holder death / release() / fail() (also with a wake-up of the helper between its two '
+         'primitives) / removal of the lock file by somebody else, is_locked()/is_failed() queries, cleanup --failed-only and '
          'get() by other clients at chosen simulated times; runs from seconds to days) with everything the real code did '
-         '(refresh times, end of the helper with cause, answers); non-trivial = the helper refreshed the lock at least once or a '
-         'fault happened; distinct = distinct scenario tuples',
+         '(start of the helper, refresh times, end of the helper with cause, primitives of fail(), answers); non-trivial = the '
+         'helper refreshed the lock at least once or a fault happened; distinct = distinct scenario tuples',
     explanation='Coq theorems over the keep-alive state machine for all event sequences, instantiated on the constants extracted '
                 'from the source + differential evaluation of the model against the real monitor loop / lock class on a simulated clock',
 )
@@ -41,11 +55,17 @@ PARENT = 4242
 NAME = 'c19lock'
 
 IMPORTS = 'From JugV Require Import Model.Keepalive Gen.KeepaliveParams.'
-CASE_TYPE = 'Z * Z * Z * Z * list citem * list out'
-CHK = ('fun c => match c with (t0, s, dr, st, items, obs) => '
+CASE_TYPE = 'Z * Z * Z * Z * list citem * list out * (list Z * path * launch * list Z * list Z)'
+CHK = ('fun c => match c with (t0, s, dr, st, items, obs, (wcwd, fullname, lobs, target, lockfile)) => '
        'let evs := expand (t0 + s) items in '
        'valid ka_params dr (init ka_params t0 st) evs && '
-       'list_eqb out_eqb (outs ka_params (init ka_params t0 st) evs) obs end')
+       'list_eqb out_eqb (outs ka_params (init ka_params t0 st) evs) obs && '
+       'launch_check wcwd fullname lobs target lockfile end')
+MONITOR_MODULE = 'jug.backends.file_keepalive_monitor'
+# Popen arguments that do not change which file the helper addresses or whether it runs
+HARMLESS_POPEN_KW = ('stdin', 'stdout', 'stderr', 'close_fds', 'bufsize')
+STOP_SIGNALS = (signal.SIGKILL, signal.SIGTERM, signal.SIGINT, signal.SIGHUP, signal.SIGQUIT)
+GATE_TIMEOUT = 60
 
 
 def source_constants():
@@ -68,34 +88,72 @@ class _Horizon(BaseException):
 
 
 class FakePopen:
-    def __init__(self, sim, args):
+    """What file_store gets from Popen(...): the call is recorded, the helper itself is the real
+    monitor main() run by Sim on the simulated clock."""
+
+    def __init__(self, sim, args, kw):
         self.sim = sim
-        self.args = list(args)
+        self.args = list(args) if isinstance(args, (list, tuple)) else args
+        self.kw = dict(kw)
+        self.worker_cwd = os.getcwd()
         self.killed = False
+        self.returncode = None
+        self.pid = 4243 + len(sim.popens)
         sim.popens.append(self)
 
+    def _stop(self):
+        self.sim.gate_before()
+        try:
+            self.killed = True
+            self.returncode = -9
+            self.sim.on_kill(self)
+        finally:
+            self.sim.gate_after()
+
     def kill(self):
-        self.killed = True
-        self.sim.on_kill(self)
+        self._stop()
+
+    def terminate(self):
+        self._stop()
+
+    def send_signal(self, sig):
+        if sig in STOP_SIGNALS:
+            self._stop()
+        elif sig != 0:
+            self.sim.anomalies.append('send_signal(%r) to the helper: not modelled' % (sig,))
 
     def poll(self):
-        return -9 if self.killed else None
+        return self.returncode
 
     def wait(self, timeout=None):
-        return self.poll()
+        return self.returncode
+
+    def communicate(self, input=None, timeout=None):
+        return (None, None)
+
+
+def split_path(p):
+    """(absolute?, components) of a normalised path"""
+    p = os.path.normpath(p)
+    return os.path.isabs(p), [c for c in p.split(os.sep) if c not in ('', '.')]
 
 
 class Sim:
-    """One scenario: the holder acquires the lock at t0, the helper's main() starts at t0 + s, faults
+    """One scenario: the holder (working directory W, jugdir J as the scenario says) acquires the lock
+    at t0, the helper's main() starts at t0 + s with the argv / cwd of the recorded Popen call, faults
     happen at their simulated times *inside* the patched sleep()."""
 
-    def __init__(self, scn, jugdir):
+    def __init__(self, scn, wdir):
         self.scn = scn
-        self.jugdir = jugdir
-        self.lockpath = os.path.join(jugdir, 'locks', NAME + '.lock')
+        jd = scn.get('jugdir') or {'mode': 'abs', 'via': 'class', 'dir': 'jd'}
+        self.wdir = os.path.realpath(wdir)
+        self.jugdir = os.path.join(self.wdir, jd['dir']) if jd['mode'] == 'abs' else jd['dir']
+        self.via = jd.get('via', 'class')
+        # where the scenario puts the lock file (checked against the disk after get())
+        self.lockpath = os.path.normpath(os.path.join(self.wdir, self.jugdir, 'locks', NAME + '.lock'))
         self.now = scn['t0']
         self.alive = True
-        self.actions = [(int(a[0]), a[1], bool(a[2])) for a in scn['actions']]
+        self.actions = [(int(a[0]), a[1], bool(a[2]), int(a[3]) if len(a) > 3 else 0) for a in scn['actions']]
         self.ai = 0
         self.drift_it = (dr for n, dr in scn['rounds'] for _ in range(n))
         self.outs = []
@@ -107,10 +165,54 @@ class Sim:
         self.utime_failed_at = None
         self.last_wake = None
         self.nwakes = 0
-        self.store = fs.file_keepalive_store(jugdir)
+        self.cur_op = None
+        self.fail_returns = []      # (time, what fail() returned)
+        self.fail_spans = []        # (first primitive seen, returned) as indices into self.outs
+        self.gate = None            # a fail() running in its own thread, stopped between two primitives
+        self.parked = None
+        self.launch = None          # the recorded start of the helper
+        self.helper_cwd = None
+        self.store = None
+
+    # ---- the holder's primitives on the lock (kill of the helper: FakePopen; os.utime: here)
+    def gate_before(self):
+        g = self.gate
+        if g is not None and threading.current_thread() is g['thread'] and not g['passed'] and g['count'] == g['k']:
+            g['passed'] = True
+            g['reached'].set()
+            if not g['go'].wait(GATE_TIMEOUT):
+                raise RuntimeError('a suspended fail() was never resumed')
+
+    def gate_after(self):
+        g = self.gate
+        if g is not None and threading.current_thread() is g['thread']:
+            g['count'] += 1
+
+    def is_lock(self, path):
+        try:
+            return os.path.normpath(os.path.join(os.getcwd(), os.fspath(path))) == self.lockpath
+        except (TypeError, ValueError):
+            return False
+
+    def w_utime(self, path, times=None, *a, **kw):
+        """os.utime as file_store sees it"""
+        if not self.is_lock(path) or self.cur_op is None:
+            return _os_utime(path, times, *a, **kw)
+        self.gate_before()
+        try:
+            try:
+                r = _os_utime(path, times, *a, **kw)
+            except OSError:
+                self.outs.append(('marked', self.now, False))
+                raise
+            self.outs.append(('marked', self.now, True))
+            return r
+        finally:
+            self.gate_after()
 
     # ---- what the monitor module sees
     def p_sleep(self, secs):
+        self.resume_parked()
         try:
             dr = next(self.drift_it)
         except StopIteration:
@@ -121,7 +223,12 @@ class Sim:
         target = self.now + secs + dr
         acts = self.actions
         while self.ai < len(acts):
-            t, kind, after = acts[self.ai]
+            t, kind, after, mid = acts[self.ai]
+            if mid and kind == 'fail' and t == target:
+                # this wake-up falls between two primitives of fail()
+                self.ai += 1
+                self.apply_split(t, mid)
+                break
             if t < target or (t == target and not after):
                 self.ai += 1
                 self.apply(t, kind)
@@ -148,20 +255,37 @@ class Sim:
         return None
 
     def p_utime(self, path, times=None):
-        if path != self.lockpath or times is not None:
-            self.anomalies.append('utime(%r, %r): unexpected arguments' % (path, times))
+        """utime() of the helper process: the path is resolved against the HELPER's working directory"""
+        if times is not None:
+            self.anomalies.append('utime(%r, %r) in the monitor: unexpected time argument' % (path, times))
         try:
-            os.utime(self.lockpath, (self.now, self.now))
+            resolved = os.path.normpath(os.path.join(self.helper_cwd, os.fspath(path)))
+        except (TypeError, ValueError):
+            self.anomalies.append('utime(%r) in the monitor: not a path' % (path,))
+            resolved = None
+        try:
+            if resolved == self.lockpath:
+                _os_utime(self.lockpath, (self.now, self.now))
+            elif resolved is not None and resolved.startswith(self.wdir + os.sep):
+                _os_utime(resolved, (self.now, self.now))        # some other file of the scenario (normally: ENOENT)
+            elif resolved is not None and os.path.lexists(resolved):
+                self.anomalies.append('the helper touches %r, a file outside the scenario (not executed)' % (resolved,))
+                return
+            else:
+                raise FileNotFoundError(2, 'No such file or directory', path)
         except OSError:
             self.utime_failed_at = self.now
             raise
-        self.outs.append(('refresh', self.now))
+        if resolved == self.lockpath:
+            self.outs.append(('refresh', self.now))
 
     def p_time(self):
         return float(self.now)
 
     def p_popen(self, args, *a, **kw):
-        return FakePopen(self, args)
+        if a:
+            self.anomalies.append('Popen called with positional arguments after the command line: not modelled')
+        return FakePopen(self, args, kw)
 
     def on_kill(self, p):
         if self.popens and p is self.popens[0] and self.mon_running:
@@ -170,6 +294,60 @@ class Sim:
             self.kill_pending = True
 
     # ---- faults and other clients
+    def do_fail(self):
+        self.cur_op = 'fail'
+        i0 = len(self.outs)
+        try:
+            r = self.wl.fail()
+            self.fail_returns.append((self.now, r))
+            self.fail_spans.append((i0, len(self.outs)))
+        finally:
+            self.cur_op = None
+
+    def apply_split(self, t, k):
+        """fail() by the holder at t; it is suspended before its (k+1)-th primitive, the helper wakes up
+        (the caller returns from sleep), and fail() continues when the helper sleeps again or has ended"""
+        self.now = t
+        if not self.alive:
+            return
+        g = {'k': k, 'count': 0, 'passed': False, 'reached': threading.Event(), 'go': threading.Event(),
+             'done': threading.Event(), 'exc': None}
+
+        def body():
+            try:
+                self.do_fail()
+            except BaseException as e:      # reported by resume_parked
+                g['exc'] = e
+            finally:
+                g['done'].set()
+                g['reached'].set()
+        g['thread'] = threading.Thread(target=body, daemon=True)
+        self.gate = g
+        g['thread'].start()
+        if not g['reached'].wait(GATE_TIMEOUT):
+            self.anomalies.append('fail() neither reached a primitive nor returned')
+        self.parked = g
+        if g['done'].is_set() or self.kill_pending:
+            # fail() has fewer primitives / the helper is dead already: the wake-up does not happen
+            self.resume_parked()
+
+    def resume_parked(self):
+        g = self.parked
+        if g is None:
+            return
+        self.parked = None
+        g['go'].set()
+        if not g['done'].wait(GATE_TIMEOUT):
+            self.anomalies.append('a suspended fail() did not return')
+        g['thread'].join(GATE_TIMEOUT)
+        self.gate = None
+        if g['exc'] is not None:
+            self.anomalies.append('fail() raised %s: %s' % (type(g['exc']).__name__, g['exc']))
+        if self.kill_pending:
+            self.kill_pending = False
+            if self.in_main:
+                raise _Killed()
+
     def apply(self, t, kind):
         self.now = t
         if kind == 'die':
@@ -179,7 +357,7 @@ class Sim:
                 self.wl.release()
         elif kind == 'fail':
             if self.alive:
-                self.wl.fail()
+                self.do_fail()
         elif kind == 'unlink':
             mode = self.scn.get('unlink_mode', 'os')
             if mode == 'remove_locks':
@@ -212,7 +390,7 @@ class Sim:
             other = self.store.getlock(NAME)
             got = bool(other.get())
             if got:
-                os.utime(self.lockpath, (t, t))       # creation time on the simulated clock
+                _os_utime(self.lockpath, (t, t))       # creation time on the simulated clock
             self.outs.append(('get', t, got))
         else:
             raise ValueError('unknown action ' + kind)
@@ -223,9 +401,11 @@ class Sim:
 
     def run(self):
         patches = [(mon, 'sleep', self.p_sleep), (mon, 'getppid', self.p_getppid), (mon, 'kill', self.p_kill),
-                   (mon, 'utime', self.p_utime), (mon, 'argv', ['file_keepalive_monitor', self.lockpath]),
-                   (fs, 'time', self.p_time), (fs, 'Popen', self.p_popen)]
+                   (mon, 'utime', self.p_utime), (mon, 'argv', ['file_keepalive_monitor']),
+                   (fs, 'time', self.p_time), (fs, 'Popen', self.p_popen), (os, 'utime', self.w_utime)]
         saved = [(m, n, getattr(m, n)) for m, n, _ in patches]
+        old_cwd = os.getcwd()
+        os.chdir(self.wdir)
         for m, n, v in patches:
             setattr(m, n, v)
         try:
@@ -233,25 +413,74 @@ class Sim:
         finally:
             for m, n, v in saved:
                 setattr(m, n, v)
+            os.chdir(old_cwd)
+            g = self.parked or self.gate
+            if g is not None:           # never leave a thread behind
+                g['go'].set()
+                g['thread'].join(GATE_TIMEOUT)
         return self
+
+    def read_launch(self):
+        """The one Popen call get() made, as the start of a helper process: its argv, its working
+        directory, the file its path argument denotes there.  None (and an anomaly) if it is not a
+        start of the monitor module that this harness knows how to reproduce."""
+        if len(self.popens) != 1:
+            self.anomalies.append('get() started %d helper processes, expected exactly one' % len(self.popens))
+            return None
+        p = self.popens[0]
+        args = p.args
+        if not isinstance(args, list) or not all(isinstance(x, str) for x in args):
+            self.anomalies.append('helper command line is not a list of strings: %r' % (args,))
+            return None
+        if len(args) != 4 or args[0] != sys.executable or args[1:3] != ['-m', MONITOR_MODULE]:
+            self.anomalies.append('helper command line is not [python, -m, %s, <lock>]: %r' % (MONITOR_MODULE, args))
+            return None
+        other = sorted(k for k in p.kw if k != 'cwd' and k not in HARMLESS_POPEN_KW)
+        if other:
+            self.anomalies.append('helper started with Popen arguments that are not modelled: %r' % (other,))
+            return None
+        cwd = p.kw.get('cwd')
+        if cwd is not None:
+            try:
+                cwd = os.fspath(cwd)
+            except TypeError:
+                self.anomalies.append('helper started with cwd=%r' % (cwd,))
+                return None
+            if isinstance(cwd, bytes):
+                cwd = os.fsdecode(cwd)
+        hcwd = p.worker_cwd if cwd is None else os.path.normpath(os.path.join(p.worker_cwd, cwd))
+        target = os.path.normpath(os.path.join(hcwd, args[3]))
+        return {'worker_cwd': p.worker_cwd, 'popen_cwd': cwd, 'arg': args[3], 'helper_cwd': hcwd, 'target': target,
+                'target_real': os.path.realpath(target), 'lock_real': os.path.realpath(self.lockpath),
+                'argv': [getattr(mon, '__file__', MONITOR_MODULE)] + args[3:]}
 
     def _run(self):
         scn = self.scn
         t0, s = scn['t0'], scn['s']
-        self.wl = fs.file_keepalive_based_lock(self.jugdir, NAME)
+        if self.via == 'select':
+            self.store = select_mod.select('file_keepalive:' + self.jugdir)
+        else:
+            self.store = fs.file_keepalive_store(self.jugdir)
+        if self.via == 'class':
+            self.wl = fs.file_keepalive_based_lock(self.jugdir, NAME)
+        else:
+            self.wl = self.store.getlock(NAME)
         if self.wl.get() is not True:
             self.anomalies.append('the holder could not acquire a fresh lock')
             return
-        os.utime(self.lockpath, (t0, t0))
-        want = [sys.executable, '-m', 'jug.backends.file_keepalive_monitor', self.lockpath]
-        if len(self.popens) != 1 or self.popens[0].args != want:
-            self.anomalies.append('get() did not start exactly one helper with the expected command line: %r'
-                                  % ([p.args for p in self.popens],))
+        if not os.path.isfile(self.lockpath):
+            self.anomalies.append('after get() there is no lock file at %s' % self.lockpath)
             return
+        _os_utime(self.lockpath, (t0, t0))
+        self.launch = self.read_launch()
+        if self.launch is None:
+            return
+        self.helper_cwd = self.launch['helper_cwd']
+        mon.argv = list(self.launch['argv'])
         self.mon_running = True
         start = t0 + s
         while self.ai < len(self.actions) and self.actions[self.ai][0] < start:
-            t, kind, after = self.actions[self.ai]
+            t, kind, after, mid = self.actions[self.ai]
             self.ai += 1
             self.apply(t, kind)
         self.now = start
@@ -276,20 +505,21 @@ class Sim:
                     cause = 'crashed'
                 self.outs.append(('exit', self.now, cause))
                 self.mon_running = False
+        self.resume_parked()
         while self.ai < len(self.actions):
-            t, kind, after = self.actions[self.ai]
+            t, kind, after, mid = self.actions[self.ai]
             self.ai += 1
             self.apply(t, kind)
 
 
 def run_scenario(scn, root, k=0):
-    jugdir = os.path.join(root, 'jd%d' % k)
-    os.makedirs(jugdir)
+    wdir = os.path.join(root, 'w%d' % k)
+    os.makedirs(wdir)
     try:
-        return Sim(scn, jugdir).run()
+        return Sim(scn, wdir).run()
     finally:
         import shutil
-        shutil.rmtree(jugdir, ignore_errors=True)
+        shutil.rmtree(wdir, ignore_errors=True)
 
 
 # ------------------------------------------------------------------------------------------------
@@ -299,9 +529,20 @@ def oracle(scn, sim, C):
     dr_env, st_env = scn['env']
     D = P + dr_env
     bad = [('harness-anomaly', a) for a in sim.anomalies]
+    # ---- the start of the helper: the file its path argument denotes in ITS working directory must be
+    # the lock file the holder created (compared as the operating system resolves them)
+    L = sim.launch
+    if L is not None:
+        if L['target_real'] != L['lock_real']:
+            bad.append(('helper started on a path that is not the lock file',
+                        'holder in <W>, jugdir %r (%s): lock file <W>/%s; helper started with cwd=%r and path argument %r '
+                        'addresses %s' % (rel_to(sim.jugdir, sim.wdir), sim.via, rel_to(sim.lockpath, sim.wdir), rel_to(L['popen_cwd'], sim.wdir),
+                                          rel_to(L['arg'], sim.wdir), rel_to(L['target'], sim.wdir))))
     obs = [o for o in sim.outs if o[0] in ('locked', 'failed', 'cleaned', 'get')]
     oi = 0
     alive, held, removed, foreign = True, True, False, False
+    fail_rets = list(sim.fail_returns)
+    sticky_since = None     # time of a fail() that returned True, until the lock file is removed
     td = None           # death of the holder while it held the lock
     t_kill = None       # first release()/fail() by the live holder
     t_gone = None       # first removal of the lock file by somebody else
@@ -322,17 +563,23 @@ def oracle(scn, sim, C):
                 held = False
                 removed = True
                 fail_marked = False
+                sticky_since = None
         elif kind == 'fail':
             if alive:
                 if t_kill is None and held:
                     t_kill = t
                 held = False
                 fail_marked = not removed
+                if not fail_rets:
+                    bad.append(('harness-anomaly', 'fail() at %d did not return' % t))
+                elif fail_rets.pop(0)[1] is True:
+                    sticky_since = t
         elif kind == 'unlink':
             if not removed and t_gone is None and held and not foreign:
                 t_gone = t
             removed = True
             fail_marked = False
+            sticky_since = None
         elif kind == 'query':
             if oi + 1 >= len(obs) or obs[oi][0] != 'locked' or obs[oi + 1][0] != 'failed':
                 bad.append(('harness-anomaly', 'query at %d has no observation' % t))
@@ -349,6 +596,9 @@ def oracle(scn, sim, C):
                 bad.append(('removed lock still seen', 'locked=%s failed=%s at t0+%d' % (locked, failed, t - scn['t0'])))
             if fail_marked and not removed and not foreign and t >= C['failed_mtime'] + E and not failed:
                 bad.append(('failed mark not reported', 'is_failed() = False at t0+%d after fail()' % (t - scn['t0'])))
+            if sticky_since is not None and t >= C['failed_mtime'] + E and not (locked and failed):
+                bad.append(('failed lock not sticky', 'fail() returned True at t0+%d and nobody removed the lock file, but at t0+%d '
+                            'is_locked() = %s, is_failed() = %s' % (sticky_since - scn['t0'], t - scn['t0'], locked, failed)))
         elif kind == 'cleanup':
             if oi >= len(obs) or obs[oi][0] != 'cleaned':
                 bad.append(('harness-anomaly', 'cleanup at %d has no observation' % t))
@@ -362,6 +612,7 @@ def oracle(scn, sim, C):
             if cleaned:
                 removed = True
                 fail_marked = False
+                sticky_since = None
         elif kind == 'get':
             if oi >= len(obs) or obs[oi][0] != 'get':
                 bad.append(('harness-anomaly', 'get at %d has no observation' % t))
@@ -372,6 +623,9 @@ def oracle(scn, sim, C):
                 bad.append(('lock stolen from a live holder', 'get() = True at t0+%d' % (t - scn['t0'])))
             if removed and not foreign and not got:
                 bad.append(('get() fails although the lock was removed', 'at t0+%d' % (t - scn['t0'])))
+            if sticky_since is not None and got:
+                bad.append(('failed lock not sticky', 'fail() returned True at t0+%d and nobody removed the lock file, but get() = True '
+                            'at t0+%d' % (sticky_since - scn['t0'], t - scn['t0'])))
             if got:
                 foreign = True
     # ---- the helper
@@ -403,24 +657,54 @@ def oracle(scn, sim, C):
         for o in sim.outs:
             if o[0] == 'refresh' and o[1] > td + D:
                 bad.append(('dead holder lock refreshed', 'refresh at td+%d' % (o[1] - td)))
+    # once fail() has returned True the helper of that holder must not touch the lock any more
+    for (i0, i1), (tf, r) in zip(sim.fail_spans, sim.fail_returns):
+        if r is True:
+            late = [o for o in sim.outs[i1:] if o[0] == 'refresh']
+            if late:
+                bad.append(('helper refreshed the lock after fail() returned', 'fail() returned True at t0+%d, refresh at t0+%d'
+                            % (tf - scn['t0'], late[0][1] - scn['t0'])))
     return bad
+
+
+def rel_to(p, wdir):
+    """paths in messages: the scratch directory changes from run to run"""
+    if p is None:
+        return None
+    p = str(p)
+    return '<W>' + p[len(wdir):] if p == wdir or p.startswith(wdir + os.sep) else p
 
 
 # ------------------------------------------------------------------------------------------------
 # rendering for Coq
-EV = {'die': 'EDie', 'release': 'ERelease', 'fail': 'EFail', 'unlink': 'EUnlink', 'query': 'EQuery',
-      'cleanup': 'ECleanup', 'get': 'EGet'}
+EV = {'die': 'EDie', 'release': 'ERelease', 'unlink': 'EUnlink', 'query': 'EQuery',
+      'cleanup': 'ECleanup', 'get': 'EGet'}        # fail: its two primitives EFailStop ; EFailMark
 CAUSE = {'parent': 'CParent', 'lockgone': 'CLockGone', 'killed': 'CKilled'}
 
 
 def render_items(scn, period):
     """The scenario as Model.Keepalive.citem list, computed from the scenario alone (not from what the
     real code did): wake-ups every period + drift seconds, actions at their times; an action at the
-    very second of a wake-up comes first unless flagged `after`."""
+    very second of a wake-up comes first unless flagged `after`.  fail() is its two primitives in the
+    order of the source (stop the helper ; write the failed stamp); flagged `mid`, the wake-up of that
+    second falls between the two."""
     items = []
-    acts = scn['actions']
+    acts = [(a[0], a[1], bool(a[2]), int(a[3]) if len(a) > 3 else 0) for a in scn['actions']]
     ai = 0
     lw = scn['t0'] + scn['s']
+
+    def emit(a, d=None, can_split=False):
+        """-> True when the action consumed one wake-up"""
+        t, kind, after, mid = a
+        if kind != 'fail':
+            items.append('CEv %s %s' % (zlit(t), EV[kind]))
+            return False
+        items.append('CEv %s EFailStop' % zlit(t))
+        split = bool(mid) and can_split and t == lw + d
+        if split:
+            items.append('CWakes %s %s' % (zlit(1), zlit(d)))
+        items.append('CEv %s EFailMark' % zlit(t))
+        return split
     for n, dr in scn['rounds']:
         d = period + dr
         if d <= 0:
@@ -428,7 +712,9 @@ def render_items(scn, period):
         remaining = n
         while remaining > 0:
             if ai < len(acts):
-                t, kind, after = acts[ai][0], acts[ai][1], bool(acts[ai][2])
+                t, kind, after, mid = acts[ai]
+                if mid and kind == 'fail':
+                    after = False
                 k = (t - lw) // d if after else (t - lw - 1) // d
                 k = max(0, min(k, remaining))
             else:
@@ -438,10 +724,12 @@ def render_items(scn, period):
                 lw += k * d
                 remaining -= k
             if remaining > 0 and ai < len(acts):
-                items.append('CEv %s %s' % (zlit(acts[ai][0]), EV[acts[ai][1]]))
+                if emit(acts[ai], d, True):
+                    lw += d
+                    remaining -= 1
                 ai += 1
     while ai < len(acts):
-        items.append('CEv %s %s' % (zlit(acts[ai][0]), EV[acts[ai][1]]))
+        emit(acts[ai])
         ai += 1
     return items
 
@@ -452,12 +740,34 @@ def render_out(o):
         return 'ORefresh %s' % zlit(o[1])
     if k == 'exit':
         return 'OExit %s %s' % (zlit(o[1]), CAUSE[o[2]])
-    return {'locked': 'OLocked', 'failed': 'OFailed', 'cleaned': 'OCleaned', 'get': 'OGet'}[k] + ' %s %s' % (zlit(o[1]), boollit(o[2]))
+    return {'locked': 'OLocked', 'failed': 'OFailed', 'cleaned': 'OCleaned', 'get': 'OGet', 'marked': 'OMarked'}[k] \
+        + ' %s %s' % (zlit(o[1]), boollit(o[2]))
+
+
+def render_launch(sim):
+    """(holder's cwd, self.fullname as the model computes it from the scenario, the observed Popen call, the file it
+    addresses as the operating system resolves it, the lock file found on disk); path components interned"""
+    L = sim.launch
+    if L is None:
+        raise ValueError('no start of the helper was recorded')
+    ids = {}
+
+    def comps(cs):
+        return listlit([zlit(ids.setdefault(c, len(ids) + 1)) for c in cs])
+
+    def plit(p):
+        isabs, cs = split_path(p)
+        return '(%s, %s)' % (boollit(isabs), comps(cs))
+    wcwd = comps(split_path(L['worker_cwd'])[1])
+    fullname = plit(os.path.join(sim.jugdir, 'locks', NAME + '.lock'))       # file_based_lock.__init__
+    lobs = '{| l_cwd := %s; l_arg := %s |}' % ('None' if L['popen_cwd'] is None else 'Some ' + plit(L['popen_cwd']), plit(L['arg']))
+    return '(%s, %s, %s, %s, %s)' % (wcwd, fullname, lobs, comps(split_path(L['target_real'])[1]), comps(split_path(L['lock_real'])[1]))
 
 
 def render_case(scn, sim, period):
-    return '(%s, %s, %s, %s, %s, %s)' % (zlit(scn['t0']), zlit(scn['s']), zlit(scn['env'][0]), zlit(scn['env'][1]),
-                                         listlit(render_items(scn, period)), listlit([render_out(o) for o in sim.outs]))
+    return '(%s, %s, %s, %s, %s, %s, %s)' % (zlit(scn['t0']), zlit(scn['s']), zlit(scn['env'][0]), zlit(scn['env'][1]),
+                                             listlit(render_items(scn, period)), listlit([render_out(o) for o in sim.outs]),
+                                             render_launch(sim))
 
 
 # ------------------------------------------------------------------------------------------------
@@ -484,6 +794,16 @@ class Schedule:
             t += n * (self.period + dr)
             j -= n
         return t
+
+    def is_wake(self, t):
+        """is t the time of a wake-up of this schedule?"""
+        lw = self.start
+        for n, dr in self.blocks:
+            d = self.period + dr
+            if lw < t <= lw + n * d:
+                return (t - lw) % d == 0
+            lw += n * d
+        return False
 
     def extend_to(self, rng, t_end, dr_env, fine=False):
         """append blocks until the last wake-up is later than t_end"""
@@ -527,6 +847,8 @@ def gen_scenario(rng, C, max_days, tight=None):
             return max(t0, sch.time_of(j) + rng.choice([-1, 0, 0, 0, 1]))
         return t
     tf = near_wake(t0 + dur)
+    if fate == 'fail' and R > 0 and sch.count() >= R and rng.random() < 0.5:
+        tf = sch.time_of(R * rng.randint(1, sch.count() // R))      # at the second of a refresh
     end = tf
     scn = {'t0': t0, 's': s, 'env': [dr_env, st_env], 'fate': fate,
            'death_mode': rng.choice(['ppid1', 'ppid1', 'ppid_other', 'kill_esrch', 'kill_eperm']),
@@ -594,13 +916,66 @@ def gen_scenario(rng, C, max_days, tight=None):
     acts.sort(key=lambda a: a[0])
     end = max([end] + [a[0] for a in acts])
     sch.extend_to(rng, end + D, dr_env, fine=False)
+    # a fail() at the very second of a wake-up: (60%) the wake-up falls between its two primitives
+    for a in acts:
+        if a[1] == 'fail' and sch.is_wake(a[0]) and rng.random() < 0.6:
+            a[2] = False
+            a.append(1)
     scn['rounds'] = sch.blocks
     scn['actions'] = acts
+    scn['jugdir'] = dict(rng.choice(JUGDIRS))
     # the start-up race outside the model: holder gone before the helper first reads getppid(), and
     # re-parented to a sub-reaper (pid != 1).  Generated with the classic re-parenting to pid 1 only.
     if any(a[1] == 'die' and a[0] <= t0 + s for a in acts) and scn['death_mode'] == 'ppid_other':
         scn['death_mode'] = 'ppid1'
     return scn
+
+
+# how the holder names its jugdir: relative to its working directory (jug's default '<jugfile>.jugdata' is) or
+# absolute; through the lock class, store.getlock() or jug.backends.select('file_keepalive:DIR')
+JUGDIRS = [
+    {'mode': 'abs', 'via': 'class', 'dir': 'jd'},
+    {'mode': 'rel', 'via': 'class', 'dir': 'jd'},
+    {'mode': 'rel', 'via': 'select', 'dir': 'work.jugdata'},
+    {'mode': 'abs', 'via': 'select', 'dir': 'store/jd'},
+    {'mode': 'rel', 'via': 'store', 'dir': 'a/b/jd.jugdata'},
+    {'mode': 'rel', 'via': 'select', 'dir': './proj.jugdata'},
+]
+
+
+def fail_window_scenarios(C):
+    """Deterministic timelines around fail(): the holder fails the lock at the very second of a wake-up of the
+    helper (a refresh / an ordinary round), the wake-up falling between the two primitives of fail(), before
+    or after it; other clients look at the lock right afterwards and later, cleanup --failed-only, get()."""
+    P, R, E = C['period'], max(1, C['rounds']), C['expiry']
+    out = []
+    k = 0
+    for dr_env, st_env in ENVS:
+        D = P + dr_env
+        t0 = 1000000
+        base = t0 + st_env
+
+        def mk(acts, tag):
+            nonlocal k
+            acts = [list(a) for a in acts]
+            acts.sort(key=lambda a: a[0])
+            last = max(a[0] for a in acts)
+            n = (last - base) // D + 3
+            k += 1
+            return {'t0': t0, 's': st_env, 'env': [dr_env, st_env], 'fate': 'fail-window:' + tag, 'death_mode': 'ppid1',
+                    'unlink_mode': 'os', 'rounds': [[n, dr_env]], 'actions': acts, 'jugdir': dict(JUGDIRS[k % len(JUGDIRS)])}
+        T1, T2, Tn = base + R * D, base + 2 * R * D, base + (R + 1) * D
+        after_fail = lambda T: [[T, 'query', False], [T + 1, 'query', False], [T + 2, 'get', False], [T + E - 1, 'query', False],
+                                [T + E + 1, 'query', False], [T + E + 5, 'cleanup', False], [T + E + 6, 'get', False]]
+        out.append(mk([[T1 - 1, 'query', False], [T1, 'fail', False, 1]] + after_fail(T1), 'mid-first-refresh'))
+        out.append(mk([[T2 - 1, 'query', False], [T2, 'fail', False, 1]] + after_fail(T2), 'mid-second-refresh'))
+        out.append(mk([[Tn, 'fail', False, 1]] + after_fail(Tn), 'mid-ordinary-round'))
+        out.append(mk([[T1, 'fail', False]] + after_fail(T1), 'before-refresh'))
+        out.append(mk([[T1, 'fail', True]] + after_fail(T1), 'after-refresh'))
+        out.append(mk([[T1, 'fail', False, 1], [T1 + 3, 'die', False], [T1 + 4, 'query', False], [T1 + D + E, 'query', False]], 'mid-then-die'))
+        out.append(mk([[T1, 'fail', False, 1], [T1 + 7, 'fail', False, 1], [T1 + 8, 'query', False]], 'mid-twice'))
+        out.append(mk([[T1 - 2, 'unlink', False], [T1, 'fail', False, 1], [T1 + 1, 'query', False], [T1 + 2, 'get', False]], 'mid-lock-gone'))
+    return out
 
 
 def tight_scenarios(C, hours, dense):
@@ -623,7 +998,7 @@ def tight_scenarios(C, hours, dense):
                 acts.append([t, 'get', False])
                 acts.append([t, 'query', True])
         out.append({'t0': t0, 's': st_env, 'env': [dr_env, st_env], 'fate': 'alive-tight', 'death_mode': 'ppid1',
-                    'unlink_mode': 'os', 'rounds': [[n + 1, dr_env]], 'actions': acts})
+                    'unlink_mode': 'os', 'rounds': [[n + 1, dr_env]], 'actions': acts, 'jugdir': dict(JUGDIRS[len(out) % len(JUGDIRS)])})
     return out
 
 
@@ -633,44 +1008,78 @@ def duration_bucket(scn):
 
 
 # ------------------------------------------------------------------------------------------------
-def smoke_real_process(ck, root):
-    """One real helper process: get() starts it, release() kills it (thorough tier only)."""
-    jugdir = os.path.join(root, 'smoke')
-    lock = fs.file_keepalive_based_lock(jugdir, 'smoke')
+def smoke_real_process(root, jd):
+    """One REAL helper process, started by get() of a holder that works in its own directory with the given
+    jugdir: it runs, the file its path argument denotes in ITS working directory (/proc/<pid>/cwd, cmdline) is the
+    lock file the holder created, release() kills it.  -> list of problems"""
+    wdir = os.path.realpath(os.path.join(root, 'smoke-' + jd['mode'] + '-' + jd['via']))
+    os.makedirs(wdir)
+    jugdir = os.path.join(wdir, jd['dir']) if jd['mode'] == 'abs' else jd['dir']
     problems = []
-    if lock.get() is not True:
-        problems.append('get() failed on a fresh directory')
-    p = lock.monitor
-    if p is None:
-        problems.append('no helper process was started')
-    else:
-        _time.sleep(0.3)
-        if p.poll() is not None:
-            problems.append('helper process ended by itself within 0.3 s (returncode %r)' % p.returncode)
-        try:
-            cmd = open('/proc/%d/cmdline' % p.pid, 'rb').read().split(b'\0')
-            if b'jug.backends.file_keepalive_monitor' not in cmd or lock.fullname.encode() not in cmd:
-                problems.append('unexpected helper command line %r' % (cmd,))
-        except OSError:
-            pass
-        lock.release()
-        try:
-            rc = p.wait(timeout=5)
-            if rc != -9:
-                problems.append('helper ended with returncode %r, expected -9 (SIGKILL)' % rc)
-        except Exception as e:
-            problems.append('helper still running 5 s after release(): %s' % e)
-            p.kill()
-        if lock.monitor is not None:
-            problems.append('release() left lock.monitor set')
-    if os.path.exists(lock.fullname):
-        problems.append('lock file still there after release()')
-    ck.count('smoke:real-process')
-    ck.obligations.append({'name': 'real helper process: started by get(), killed by release()', 'kind': 'test',
-                           'ok': not problems, 'msg': '; '.join(problems)})
-    if problems:
-        ck.violation({'kind': 'impl-violation', 'what': 'real helper process smoke test', 'problems': problems,
-                      'how_to_run': 'bin/check C19 --tier thorough'})
+    old = os.getcwd()
+    os.chdir(wdir)
+    p = None
+    try:
+        store = select_mod.select('file_keepalive:' + jugdir) if jd['via'] == 'select' else fs.file_keepalive_store(jugdir)
+        lock = fs.file_keepalive_based_lock(jugdir, 'smoke') if jd['via'] == 'class' else store.getlock('smoke')
+        lockfile = os.path.realpath(os.path.join(wdir, jugdir, 'locks', 'smoke.lock'))
+        if lock.get() is not True:
+            return ['get() failed on a fresh directory']
+        if not os.path.isfile(lockfile):
+            problems.append('after get() there is no lock file at <W>/%s' % os.path.relpath(lockfile, wdir))
+        p = lock.monitor
+        if p is None:
+            problems.append('no helper process was started')
+        else:
+            _time.sleep(0.3)
+            if p.poll() is not None:
+                problems.append('helper process ended by itself within 0.3 s (returncode %r)' % p.returncode)
+            else:
+                try:
+                    cmd = [os.fsdecode(x) for x in open('/proc/%d/cmdline' % p.pid, 'rb').read().split(b'\0')]
+                    hcwd = os.readlink('/proc/%d/cwd' % p.pid)
+                except OSError:
+                    cmd = hcwd = None       # no /proc: nothing to compare
+                if cmd is not None:
+                    if MONITOR_MODULE not in cmd or cmd.index(MONITOR_MODULE) + 1 >= len(cmd):
+                        problems.append('unexpected helper command line %r' % (cmd,))
+                    else:
+                        arg = cmd[cmd.index(MONITOR_MODULE) + 1]
+                        target = os.path.realpath(os.path.join(hcwd, arg))
+                        if target != lockfile:
+                            problems.append('the helper (cwd %s, path argument %r) addresses %s, the lock file is <W>/%s'
+                                            % (rel_to(hcwd, wdir), rel_to(arg, wdir), rel_to(target, wdir), os.path.relpath(lockfile, wdir)))
+            lock.release()
+            try:
+                rc = p.wait(timeout=5)
+                if rc != -9:
+                    problems.append('helper ended with returncode %r, expected -9 (SIGKILL)' % rc)
+            except Exception as e:
+                problems.append('helper still running 5 s after release(): %s' % e)
+            if lock.monitor is not None:
+                problems.append('release() left lock.monitor set')
+        if os.path.exists(lockfile):
+            problems.append('lock file still there after release()')
+    finally:
+        os.chdir(old)
+        if p is not None and p.poll() is None:
+            try:
+                p.kill()
+                p.wait(timeout=5)
+            except Exception:
+                pass
+    return problems
+
+
+def smoke(ck, root, jds):
+    for jd in jds:
+        problems = smoke_real_process(root, jd)
+        ck.count('smoke:real-process')
+        ck.obligations.append({'name': 'real helper process (jugdir %s, %s, via %s): started by get() on the lock file, killed by release()'
+                                       % (jd['dir'], jd['mode'], jd['via']), 'kind': 'test', 'ok': not problems, 'msg': '; '.join(problems)})
+        if problems:
+            ck.violation({'kind': 'impl-violation', 'what': 'real helper process smoke test', 'problems': problems, 'smoke_jugdir': jd,
+                          'how_to_run': 'bin/check C19 --replay <this file>'})
 
 
 def minimise(scn, what, root, C):
@@ -702,14 +1111,79 @@ def first_failing_prefix(scn, what, root, C):
     return dict(scn, actions=[a for a in scn['actions'] if a[0] == t][:1])
 
 
+TRUSTED = [
+    'C19: harness/translate_c19.py (AST templates of the monitor loop, is_failed, fail, _FAILED_TIMESTAMP; fail-closed)',
+    'C19: the simulated clock / process table around the real monitor loop (harness/c19.py: patched sleep, getppid, kill, utime, '
+    'time, Popen, os.utime); real lock files in a scratch directory carry the simulated mtimes; the helper\'s path argument is '
+    'resolved against the working directory the recorded Popen call gives it (os.path.join / realpath)',
+]
+
+
+def judge_scenarios(ck, scns, root, C, prop='C19', tag='', extra=None):
+    """Run the scenarios on the real code, judge every run with the property's own oracle (violations are
+    reported), render it for Coq.  -> (cases, meta)"""
+    cases, meta = [], []
+    for k, scn in enumerate(scns):
+        sim = run_scenario(scn, root, k)
+        bad = oracle(scn, sim, C)
+        for what, detail in bad:
+            if what == 'harness-anomaly' or ck.viol_by_what.get(what + tag, 0) >= core.MAX_REPLAYS_PER_KIND:
+                small = scn         # (further ones of the same kind are only counted)
+            else:
+                small = minimise(scn, what, root, C)
+            ssim = run_scenario(small, root, 999997)
+            ck.violation(dict({'kind': 'impl-violation', 'what': what + tag, 'detail': detail, 'scenario': small,
+                               'observed': ssim.outs, 'helper_start': launch_json(ssim), 'constants_in_source': C,
+                               'how_to_run': 'bin/check %s --replay <this file>' % prop}, **(extra or {})))
+        ck.count('fate:' + scn['fate'].split(':')[0])
+        ck.count('duration:' + duration_bucket(scn))
+        ck.count('refreshes', sum(1 for o in sim.outs if o[0] == 'refresh'))
+        ck.count('rounds', sim.nwakes)
+        ck.count('jugdir:%s via %s' % (scn.get('jugdir', {}).get('mode', 'abs'), scn.get('jugdir', {}).get('via', 'class')))
+        for a in scn['actions']:
+            if a[1] == 'fail':
+                ck.count('fail():wake-up between its primitives' if len(a) > 3 and a[3] else 'fail():atomic')
+        for o in sim.outs:
+            if o[0] == 'exit':
+                ck.count('helper-end:' + o[2])
+        if sim.mon_running:
+            ck.count('helper-end:none(still running at the end of the scenario)')
+        nontrivial = any(o[0] == 'refresh' for o in sim.outs) or any(a[1] in ('die', 'release', 'fail', 'unlink') for a in scn['actions'])
+        ck.distinct((scn['t0'], scn['s'], scn['env'], scn['rounds'], scn['actions'], scn['death_mode'], scn['unlink_mode'],
+                     scn.get('jugdir')), nontrivial)
+        if any(o[0] == 'exit' and o[2] == 'crashed' for o in sim.outs):
+            continue
+        try:
+            cases.append(render_case(scn, sim, C['period']))
+            meta.append(scn)
+        except ValueError as e:
+            ck.broken.append('scenario could not be rendered for Coq: %s' % e)
+        if k in (7, 40, 200):
+            ck.sample({'scenario': dict(scn, rounds=scn['rounds'][:6], actions=scn['actions'][:8]), 'observed': sim.outs[:10],
+                       'helper_start': launch_json(sim)})
+    return cases, meta
+
+
+def tie_scenarios(ck, name, cases, meta, root, C, prop='C19', shard=60, extra=None):
+    fails = ck.cases(name, IMPORTS, CASE_TYPE, CHK, cases, shard=shard)
+    for i in (fails or []):
+        sim = run_scenario(meta[i], root, 999996)
+        ck.violation(dict({'kind': 'correspondence', 'what': 'keep-alive run: model and real code disagree (or the run is outside the model\'s admissible runs)',
+                           'scenario': meta[i], 'observed': sim.outs, 'helper_start': launch_json(sim), 'coq_case': cases[i],
+                           'constants_in_source': C, 'how_to_run': 'bin/check %s --replay <this file>' % prop}, **(extra or {})))
+
+
+def launch_json(sim):
+    L = sim.launch
+    if L is None:
+        return None
+    return {k: rel_to(L[k], sim.wdir) for k in ('worker_cwd', 'popen_cwd', 'arg', 'helper_cwd', 'target_real', 'lock_real')}
+
+
 def run(ck):
     C, terr = source_constants()
     proved = ck.prove()
-    ck.trusted_base = core.DEFAULT_TRUSTED_BASE + [
-        'C19: harness/translate_c19.py (AST templates of the monitor loop, is_failed, fail, _FAILED_TIMESTAMP; fail-closed)',
-        'C19: the simulated clock / process table around the real monitor loop (harness/c19.py: patched sleep, getppid, kill, utime, '
-        'time, Popen); real lock files in a scratch directory carry the simulated mtimes',
-    ]
+    ck.trusted_base = core.DEFAULT_TRUSTED_BASE + TRUSTED
     ck.assumptions = [
         'environment: every round of the helper (sleep + loop body) takes at most period + drift seconds, its first round at most '
         'startup more; proved for all drift, startup >= 0 with startup + 60*drift < 1500 (Props/C19.v)',
@@ -717,6 +1191,10 @@ def run(ck):
         'the holder\'s death is visible to the helper through getppid()/kill(pid, 0) (no PID reuse; a stopped (SIGSTOP) holder counts '
         'as alive); the helper reads its parent pid before the holder can die',
         'nobody but the holder, its helper and the modelled clients touches the lock file',
+        'Popen.kill() takes effect before the holder\'s next primitive (stop_monitor() does not wait() for the helper: a utime() of the '
+        'helper that is already inside the kernel when SIGKILL arrives is not modelled)',
+        'paths: no symbolic links or ".." between the holder\'s working directory and the lock file; the helper inherits the '
+        'holder\'s environment (PYTHONPATH) - covered for the real process by the smoke test only',
     ]
     if terr:
         ck.notes.append('translator failed, direct search uses the documented constants: ' + terr)
@@ -725,53 +1203,17 @@ def run(ck):
     with jugrun.scratch_dir('jugv19') as root:
         scns = []
         scns += tight_scenarios(C, 6 if not thorough else 24, dense=False)
+        scns += fail_window_scenarios(C)
         nrand = ck.n(500, 20000)
         for _ in range(nrand):
             scns.append(gen_scenario(ck.rng, C, max_days))
         for env in ENVS:    # random faults on the slowest admissible schedule of each environment
             for _ in range(ck.n(5, 100)):
                 scns.append(gen_scenario(ck.rng, C, max_days, tight=env))
-        cases, meta = [], []
         t_sim = _time.time()
-        for k, scn in enumerate(scns):
-            sim = run_scenario(scn, root, k)
-            bad = oracle(scn, sim, C)
-            for what, detail in bad:
-                if what == 'harness-anomaly' or ck.viol_by_what.get(what, 0) >= core.MAX_REPLAYS_PER_KIND:
-                    small = scn         # (further ones of the same kind are only counted)
-                else:
-                    small = minimise(scn, what, root, C)
-                ssim = run_scenario(small, root, 999997)
-                ck.violation({'kind': 'impl-violation', 'what': what, 'detail': detail, 'scenario': small,
-                              'observed': ssim.outs, 'constants_in_source': C,
-                              'how_to_run': 'bin/check C19 --replay <this file>'})
-            ck.count('fate:' + scn['fate'])
-            ck.count('duration:' + duration_bucket(scn))
-            ck.count('refreshes', sum(1 for o in sim.outs if o[0] == 'refresh'))
-            ck.count('rounds', sim.nwakes)
-            for o in sim.outs:
-                if o[0] == 'exit':
-                    ck.count('helper-end:' + o[2])
-            if sim.mon_running:
-                ck.count('helper-end:none(still running at the end of the scenario)')
-            nontrivial = any(o[0] == 'refresh' for o in sim.outs) or any(a[1] in ('die', 'release', 'fail', 'unlink') for a in scn['actions'])
-            ck.distinct((scn['t0'], scn['s'], scn['env'], scn['rounds'], scn['actions'], scn['death_mode'], scn['unlink_mode']), nontrivial)
-            if any(o[0] == 'exit' and o[2] == 'crashed' for o in sim.outs):
-                continue
-            try:
-                cases.append(render_case(scn, sim, C['period']))
-                meta.append(scn)
-            except ValueError as e:
-                ck.broken.append('scenario could not be rendered for Coq: %s' % e)
-            if k in (7, 40, 200):
-                ck.sample({'scenario': dict(scn, rounds=scn['rounds'][:6], actions=scn['actions'][:8]), 'observed': sim.outs[:10]})
+        cases, meta = judge_scenarios(ck, scns, root, C)
         ck.notes.append('simulation of %d scenarios: %.1fs' % (len(scns), _time.time() - t_sim))
-        fails = ck.cases('keepalive', IMPORTS, CASE_TYPE, CHK, cases, shard=ck.n(60, 400))
-        for i in (fails or []):
-            sim = run_scenario(meta[i], root, 999996)
-            ck.violation({'kind': 'correspondence', 'what': 'keep-alive run: model and real code disagree (or the run is outside the model\'s admissible runs)',
-                          'scenario': meta[i], 'observed': sim.outs, 'coq_case': cases[i], 'constants_in_source': C,
-                          'how_to_run': 'bin/check C19 --replay <this file>'})
+        tie_scenarios(ck, 'keepalive', cases, meta, root, C, shard=ck.n(60, 400))
         # ---- dense adversarial timelines, direct oracle only: any refresh cadence / expiry that lets a
         # live holder look dead shows up here with the exact second
         for scn in tight_scenarios(C, 3 if not thorough else 12, dense=True):
@@ -787,15 +1229,23 @@ def run(ck):
                     small = dict(scn, actions=scn['actions'][:50])
                 ssim = run_scenario(small, root, 999994)
                 ck.violation({'kind': 'impl-violation', 'what': what, 'detail': detail, 'scenario': small,
-                              'observed': ssim.outs[-6:], 'constants_in_source': C,
+                              'observed': ssim.outs[-6:], 'helper_start': launch_json(ssim), 'constants_in_source': C,
                               'how_to_run': 'bin/check C19 --replay <this file>'})
-        if thorough:
-            smoke_real_process(ck, root)
+        # ---- real helper processes: relative and absolute jugdir (all ways of naming it in the thorough tier)
+        smoke(ck, root, JUGDIRS if thorough else [JUGDIRS[2], JUGDIRS[0]])
 
 
-def replay(obj):
+def replay(obj, prop='C19'):
     """Re-execute one recorded scenario against /repo: prints what the real code does, what the
     property's oracle says, and (when Coq is available) whether the model agrees."""
+    if obj.get('smoke_jugdir'):
+        with jugrun.scratch_dir('jugv19r') as root:
+            problems = smoke_real_process(root, obj['smoke_jugdir'])
+        print('real helper process, holder in its own directory <W> with jugdir %r:' % (obj['smoke_jugdir'],))
+        for pr in problems:
+            print('VIOLATED:', pr)
+        print('expected: get() starts one helper process that addresses the lock file; release() kills it')
+        return 1 if problems else 0
     scn = obj.get('scenario')
     if not scn:
         print('replay: nothing to re-execute (%s)' % obj.get('kind'))
@@ -809,17 +1259,20 @@ def replay(obj):
         bad = oracle(scn, sim, C)
         print('scenario: t0=%d helper starts at t0+%d, env (drift,startup)=%s, %d rounds, actions (relative to t0): %s'
               % (scn['t0'], scn['s'], scn['env'], sum(n for n, _ in scn['rounds']),
-                 [(a[0] - scn['t0'], a[1]) for a in scn['actions'][:40]]))
+                 [(a[0] - scn['t0'], a[1]) + (('wake-up between its primitives',) if len(a) > 3 and a[3] else ()) for a in scn['actions'][:40]]))
+        print('holder: working directory <W>, jugdir %r; start of the helper: %s' % (scn.get('jugdir', {'mode': 'abs', 'via': 'class', 'dir': 'jd'}),
+                                                                                    launch_json(sim)))
         print('observed (relative to t0):', [(o[0], o[1] - scn['t0']) + tuple(o[2:]) for o in sim.outs[-40:]])
         if obj.get('observed') is not None:
             same = [list(o) for o in sim.outs][-len(obj['observed']):] == [list(o) for o in obj['observed']] if obj['observed'] else True
             print('same as recorded:', same)
         for what, detail in bad:
             print('VIOLATED: %s - %s' % (what, detail))
-        print('expected: live holder never reported failed / dead holder reported failed from td+period+drift+expiry on / helper ends')
+        print('expected: the helper addresses the lock file / live holder never reported failed / dead holder reported failed from '
+              'td+period+drift+expiry on / helper ends / after fail() returned True the lock stays failed')
         rc = 1 if bad else 0
         if obj.get('kind') == 'correspondence':
-            ck = core.Check('C19', 'quick', 0)
+            ck = core.Check(prop, 'quick', 0)
             try:
                 case = render_case(scn, sim, C['period'])
                 fails = ck.cases('replay', IMPORTS, CASE_TYPE, CHK, [case])
